@@ -38,17 +38,14 @@ def _alarm(signum, frame):
 
 
 def load_specs():
-    env = {}
+    """All spec files are executed into ONE shared namespace (so they can refer to each other)."""
+    env = {"__name__": "pyvc_specs"}
     d = os.path.join(ROOT, "contracts", "spec")
     for fn in sorted(os.listdir(d)):
         if fn.endswith(".py"):
-            spec = importlib.util.spec_from_file_location("pyvc_spec_" + fn[:-3], os.path.join(d, fn))
-            m = importlib.util.module_from_spec(spec)
-            spec.loader.exec_module(m)
-            for k, v in vars(m).items():
-                if callable(v) and not k.startswith("_"):
-                    env[k] = v
-    for k in ("forall", "exists", "implies", "iff", "ite", "bxor", "sub", "file_content", "file_pos"):
+            path = os.path.join(d, fn)
+            exec(compile(open(path).read(), path, "exec"), env)
+    for k in ("forall", "exists", "implies", "iff", "ite", "bxor", "sub", "file_content", "file_pos", "fits_bytes"):
         env[k] = getattr(rt, k)
     return env
 
@@ -308,13 +305,15 @@ DOM_ENV = {"bytes_": lambda **kw: list(dom_bytes(**kw)), "str_": lambda **kw: li
            "lit": lambda *v: [{"py": repr(x)} for x in v]}
 
 
-def domains_of(contract):
+def domains_of(contract, specenv=None):
     """domain(...) clause of the contract: cover(dict(param=domain-expression,...), consts=dict(...))."""
     doms, consts = {}, {}
     for cov in contract.covers:
         if isinstance(cov, ast.Call) and isinstance(cov.func, ast.Name) and cov.func.id == "domain":
             for k in cov.keywords:
-                val = eval(compile_expr(k.value), dict(DOM_ENV))
+                env = dict(specenv or {})
+                env.update(DOM_ENV)
+                val = eval(compile_expr(k.value), env)
                 if k.arg.startswith("const_"):
                     consts[k.arg[6:].replace("__", ".")] = [from_json(x) for x in val]
                 else:
@@ -323,7 +322,7 @@ def domains_of(contract):
 
 
 def search(fn, cc, contract, budget, seed, timeout_s, mode):
-    doms, consts = domains_of(contract)
+    doms, consts = domains_of(contract, cc.specenv)
     names = [n for n, _ in contract.params]
     if any(n not in doms for n in names):
         return {"outcome": "no-domain", "missing": [n for n in names if n not in doms]}
